@@ -4,73 +4,40 @@
   Two independent executable definitions exist: the MIRROR of the code (SF/Gotype/Fold.lean:
   compile a type into a folder term as `getReflectFold`/`buildFieldFold`/… do, then interpret
   it) and the SPECIFICATION written from the documentation only (SF/Gotype/Rules.lean: the
-  value a Go value folds to).  The mirror is tied to gotype/*.go by the differential
-  correspondence (ops `fold`, `fold-seq`, `typeinfo`, `goval`); the specification is
-  evaluated as an oracle on what the implementation emitted.
+  value a Go value folds to, or the refusal).  The mirror is tied to gotype/*.go by the
+  differential correspondence (ops `fold`, `fold-seq`, `typeinfo`, `goval`, `foldifc`,
+  `foldopts`); the specification is also evaluated as an oracle on what the implementation
+  emitted.
 
-  Proved here, for EVERY tag string (so for every struct type a user can declare):
-    * `tag_rules_agree`: the code's tag parser (`parseTags`, tags.go) and the documented tag
-      grammar (`Rules.parseTag`) decide the same four things — the member name, whether the
-      field is dropped (`-` / `omit`), whether it is inlined (`inline` / `squash`), whether
-      it is `omitempty` — whatever the order, repetition, spacing and spelling of the options;
+  Proved here (proofs in SF/Proofs/Fold*.lean, SF/Proofs/Rec*.lean — 33 files):
+    * `tag_rules_agree`, for EVERY tag string: the code's tag parser and the documented tag
+      grammar decide the same four things — member name, dropped (`-` / `omit`), inlined
+      (`inline` / `squash`), `omitempty` — whatever the order, repetition, spacing and
+      spelling of the options;
     * `announced_length_rule`: a struct announces its field count only when no kept field is
-      `omitempty` or inlined, else -1 (the repair of F18; C09 needs it).
-  The full statement `Fold.impl T v ≈ Rules.fold T v` over all types and values is decided by
-  oracle + correspondence (SF/Ops/Fold.lean) on generated types × values.
+      `omitempty` or inlined, else -1 (the repair of F18; C09 needs it);
+    * `fold_agrees` / `fold_agrees_inputs`: for EVERY type of the universe `goodT` and every
+      value of that type, when the rules give `r` the mirror returns ok and the events it
+      delivered build a value `Rules.agrees` accepts for `r`;
+    * `fold_refuses`: when the rules refuse, the mirror returns a Go error (never ok, never a
+      panic, never fuel exhaustion);
+    * `fold_total`: both at once;
+    * `fold_agrees_rec`: the agreement for self-recursive named types.
+  The universe (`goodT`, SF/Proofs/FoldUniv.lean): every scalar kind, interface{}, slices,
+  arrays (incl. the typed-array fast paths), pointers, maps with string-kind keys under ANY map
+  iteration order, structs with ARBITRARY tag strings (unexported, `-`, omit, names, omitempty
+  incl. interface-typed fields, inline / squash, the inline+omitempty declaration error), named
+  types without methods, chan / func / complex / uintptr (refused).  NOT in the universe —
+  decided by oracle + correspondence only: `inline` fields of interface kind, named types with
+  Fold / IsZero methods or a registered fold function (rule 2), mutually recursive members, the
+  error direction for recursive types.  The numeric side conditions (`dynBound` = 499,
+  `specDynBound` = 332, `runFuel` = 100000, `vcost ≤ 100000`) are the fixed fuels of the two
+  executable definitions, proved sufficient — the Go code has no such bounds.
 -/
-import SF.Gotype.Fold
-import SF.Gotype.Rules
+import SF.Proofs.FoldTagRules
+import SF.Proofs.FoldRulesTop
 namespace SF.Props.C12
-open SF SF.Gotype
-
-/-- one step of the code's left-to-right scan over the options -/
-def scanStep (o : Fold.TagOpts) (opt : String) : Fold.TagOpts :=
-  let t := Fold.trimSpace opt
-  if t == "squash" || t == "inline" then { o with squash := true }
-  else if t == "omitempty" then { o with omitEmpty := true }
-  else if t == "omit" then { o with omitF := true }
-  else o
-
-theorem scanStep_flags (o : Fold.TagOpts) (x : String) :
-    (scanStep o x).squash = (o.squash || ("inline" == Fold.trimSpace x || "squash" == Fold.trimSpace x)) ∧
-    (scanStep o x).omitEmpty = (o.omitEmpty || "omitempty" == Fold.trimSpace x) ∧
-    (scanStep o x).omitF = (o.omitF || "omit" == Fold.trimSpace x) := by
-  unfold scanStep
-  simp only []
-  by_cases h1 : Fold.trimSpace x = "squash"
-  · simp [h1]
-  · by_cases h2 : Fold.trimSpace x = "inline"
-    · simp [h2]
-    · by_cases h3 : Fold.trimSpace x = "omitempty"
-      · simp [h3]
-      · by_cases h4 : Fold.trimSpace x = "omit"
-        · simp [h4]
-        · simp [h1, h2, h3, h4, Ne.symm h1, Ne.symm h2, Ne.symm h3, Ne.symm h4]
-
-/-- the option flags computed by the code's scan = membership tests on the trimmed options -/
-theorem scan_flags (opts : List String) (o : Fold.TagOpts) :
-    (opts.foldl scanStep o).squash =
-      (o.squash || ((opts.map Fold.trimSpace).contains "inline" || (opts.map Fold.trimSpace).contains "squash")) ∧
-    (opts.foldl scanStep o).omitEmpty = (o.omitEmpty || (opts.map Fold.trimSpace).contains "omitempty") ∧
-    (opts.foldl scanStep o).omitF = (o.omitF || (opts.map Fold.trimSpace).contains "omit") := by
-  induction opts generalizing o with
-  | nil => simp
-  | cons x xs ih =>
-    obtain ⟨a, b, c⟩ := ih (scanStep o x)
-    obtain ⟨a', b', c'⟩ := scanStep_flags o x
-    simp only [List.foldl_cons, List.map_cons, List.contains_cons]
-    refine ⟨?_, ?_, ?_⟩
-    · rw [a, a']
-      generalize o.squash = p1
-      generalize ("inline" == Fold.trimSpace x) = p2
-      generalize ("squash" == Fold.trimSpace x) = p3
-      generalize (List.map Fold.trimSpace xs).contains "inline" = p4
-      generalize (List.map Fold.trimSpace xs).contains "squash" = p5
-      cases p1 <;> cases p2 <;> cases p3 <;> cases p4 <;> cases p5 <;> rfl
-    · rw [b, b', Bool.or_assoc]
-    · rw [c, c', Bool.or_assoc]
-
-theorem trim_eq (s : String) : Rules.trim s = Fold.trimSpace s := rfl
+open SF SF.Gotype SF.Gotype.Fold SF.Gotype.Rules SF.FoldProofs
 
 /-- C12 (tag rules): for EVERY tag string the code's tag parser and the documented tag grammar
 agree on all four decisions: dropped (`-` or `omit`), and — unless the tag is `-` — the member
@@ -81,33 +48,8 @@ theorem tag_rules_agree (raw : String) :
     ((Rules.parseTag raw).dash = false →
       (Fold.parseTags raw).1 = (Rules.parseTag raw).name ∧
       (Fold.parseTags raw).2.squash = (Rules.parseTag raw).inline ∧
-      (Fold.parseTags raw).2.omitEmpty = (Rules.parseTag raw).omitEmpty) := by
-  unfold Fold.parseTags Rules.parseTag
-  cases hs : raw.splitOn "," with
-  | nil =>
-    have : ("" == "-") = false := by decide
-    simp only [List.headD_nil, this, Bool.false_eq_true, if_false, List.drop_nil, List.map_nil,
-      List.contains_nil, Bool.or_self]
-    have te : Rules.trim "" = "" := by rfl
-    simp [te]
-  | cons s0 rest =>
-    simp only [List.headD_cons, List.drop_one, List.tail_cons]
-    by_cases hd : (s0 == "-") = true
-    · simp [hd]
-    · simp only [hd, Bool.false_eq_true, if_false]
-      obtain ⟨a, b, c⟩ := scan_flags rest {}
-      have e : (fun (o : Fold.TagOpts) opt =>
-          let t := Fold.trimSpace opt
-          if t == "squash" || t == "inline" then { o with squash := true }
-          else if t == "omitempty" then { o with omitEmpty := true }
-          else if t == "omit" then { o with omitF := true }
-          else o) = scanStep := rfl
-      have tm : List.map Rules.trim rest = List.map Fold.trimSpace rest := rfl
-      rw [e, tm]
-      refine ⟨?_, fun _ => ⟨rfl, ?_, ?_⟩⟩
-      · exact c
-      · exact a
-      · exact b
+      (Fold.parseTags raw).2.omitEmpty = (Rules.parseTag raw).omitEmpty) :=
+  SF.FoldTagRules.tag_rules_agree raw
 
 /-- a struct folder announces a definite member count ONLY IF no kept field is `omitempty` or
 inlined (their contribution is known only at fold time); otherwise it announces -1 -/
@@ -117,21 +59,95 @@ theorem announced_length_rule (fs : List Field) (n : Nat) :
         ((Fold.parseTags f.tag).2.squash = true ∨ (Fold.parseTags f.tag).2.omitEmpty = true)) ∨
     (Fold.structFoldLen fs n = n ∧
       ∀ f ∈ fs, (Fold.parseTags f.tag).2.omitF = false →
-        (Fold.parseTags f.tag).2.squash = false ∧ (Fold.parseTags f.tag).2.omitEmpty = false) := by
-  unfold Fold.structFoldLen
-  by_cases h : fs.any (fun f => let o := (Fold.parseTags f.tag).2; !o.omitF && (o.squash || o.omitEmpty)) = true
-  · left
-    simp only [h, if_true, true_and]
-    obtain ⟨f, hf, hp⟩ := List.any_eq_true.mp h
-    refine ⟨f, hf, ?_⟩
-    simp only [Bool.and_eq_true, Bool.not_eq_true', Bool.or_eq_true] at hp
-    exact hp
-  · right
-    simp only [h, Bool.false_eq_true, if_false, true_and]
-    intro f hf hk
-    have hn : ¬ ((fun f => let o := (Fold.parseTags f.tag).2; !o.omitF && (o.squash || o.omitEmpty)) f = true) := by
-      intro hc; exact h (List.any_eq_true.mpr ⟨f, hf, hc⟩)
-    simp only [hk, Bool.not_false, Bool.true_and, Bool.or_eq_true, not_or, Bool.not_eq_true] at hn
-    exact hn
+        (Fold.parseTags f.tag).2.squash = false ∧ (Fold.parseTags f.tag).2.omitEmpty = false) :=
+  SF.FoldTagRules.announced_length_rule fs n
+
+/-- C12, agreement: for every good type `T` of depth ≤ 499, every value `v` of type `T` (`wt`:
+shapes fit, one value per struct field, map keys distinct, dynamic types good) of depth ≤ 33331,
+every map-order oracle that mentions no key twice inside one typed map (`hintOK`), registered
+user folders or not, and a visitor that never fails: if the rules give `r`, the mirror returns
+`ok` and the events it delivered build a value that `Rules.agrees` accepts for `r` (provided
+`Rules.agrees` has the fuel to compare: `rcost r ≤ 100000`). -/
+theorem fold_agrees (o : FoldOpts) (reg : Bool) (T : GoType) (v : GoVal) (r : RVal)
+    (hp : goodT [] T = true) (hdt : tdepth T ≤ dynBound) (hw : wt T v = true)
+    (hdv : 3 * vdepth v + 6 ≤ runFuel)
+    (hfail : o.failAt = none) (hord : hintOK o.order)
+    (hspec : Rules.foldR T v reg = .ok r) (hcost : rcost r ≤ 100000) :
+    (impl o T v).res = .ok ∧ ∃ g, build (expandAll (impl o T v).evs) = some g ∧ Rules.agrees r g = true :=
+  SF.FoldProofs.fold_agrees o reg T v r hp hdt hw hdv hfail hord hspec hcost
+
+/-- the same with every side condition on the INPUTS (`vcost v`: a structural measure of the
+value bounding the comparison fuel of whatever the rules give) -/
+theorem fold_agrees_inputs (o : FoldOpts) (reg : Bool) (T : GoType) (v : GoVal) (r : RVal)
+    (hp : goodT [] T = true) (hdt : tdepth T ≤ dynBound) (hw : wt T v = true)
+    (hdv : 3 * vdepth v + 6 ≤ runFuel) (hcost : vcost v ≤ 100000)
+    (hfail : o.failAt = none) (hord : hintOK o.order)
+    (hspec : Rules.foldR T v reg = .ok r) :
+    (impl o T v).res = .ok ∧ ∃ g, build (expandAll (impl o T v).evs) = some g ∧ Rules.agrees r g = true :=
+  SF.FoldProofs.fold_agrees' o reg T v r hp hdt hw hdv hcost hfail hord hspec
+
+/-- C12, refusal: if the rules REFUSE the value (an unsupported kind anywhere in the static type
+or in a dynamic type that is reached, a map key type that is no string kind, `inline` together
+with `omitempty`, `inline` on something that is no object) — and not merely because the
+specification ran out of its own fuel — the mirror returns a Go error: never ok, never a panic,
+never fuel exhaustion. -/
+theorem fold_refuses (o : FoldOpts) (reg : Bool) (T : GoType) (v : GoVal) (e : RuleErr)
+    (hp : goodT [] T = true) (hdt : tdepth T ≤ specDynBound) (hw : wt T v = true)
+    (hsm : dynSmall v = true) (hdv : 3 * vdepth v + 6 ≤ runFuel)
+    (hfail : o.failAt = none) (hord : hintOK o.order)
+    (hspec : Rules.foldR T v reg = .error e) (hne : e ≠ .fuel) :
+    ∃ e', (impl o T v).res = .err e' :=
+  SF.FoldProofs.fold_refuses o reg T v e hp hdt hw hsm hdv hfail hord hspec hne
+
+/-- both directions at once: on the universe the mirror's verdict is the rules' verdict -/
+theorem fold_total (o : FoldOpts) (reg : Bool) (T : GoType) (v : GoVal)
+    (hp : goodT [] T = true) (hdt : tdepth T ≤ specDynBound) (hw : wt T v = true)
+    (hsm : dynSmall v = true) (hdv : 3 * vdepth v + 6 ≤ runFuel) (hcost : vcost v ≤ 100000)
+    (hfail : o.failAt = none) (hord : hintOK o.order) :
+    match Rules.foldR T v reg with
+    | .ok r => (impl o T v).res = .ok ∧ ∃ g, build (expandAll (impl o T v).evs) = some g ∧ Rules.agrees r g = true
+    | .error e => e = .fuel ∨ ∃ e', (impl o T v).res = .err e' := by
+  have h := SF.FoldProofs.fold_total o reg T v hp hdt hw hsm hdv hcost hfail hord
+  cases hs : Rules.foldR T v reg with
+  | ok r => rw [hs] at h; exact h
+  | error e => rw [hs] at h; exact h
+
+/-- C12 for self-recursive named types (`ns`: menagerie members declared as good named types
+the rules accept locally, `MenOK`; `FuelOK`: the mirror's compile fuel covers them): the
+agreement for every type good over `ns` and every value of it of depth ≤ 24998 -/
+theorem fold_agrees_rec {ns : List String} {D : Nat} (hM : FoldRec.MenOK ns D) (hD : D ≤ 1000)
+    (hfuel : FoldRec.FuelOK ns D)
+    (o : FoldOpts) (reg : Bool) (T : GoType) (v : GoVal) (r : RVal)
+    (hp : FoldRec.goodR ns T = true) (hdt : tdepth T ≤ D) (hw : FoldRec.wtR ns D T v = true)
+    (hdv : 4 * vdepth v + 8 ≤ runFuel) (hfail : o.failAt = none) (hord : hintOK o.order)
+    (hspec : Rules.foldR T v reg = .ok r) (hcost : rcost r ≤ 100000) :
+    (impl o T v).res = .ok ∧ ∃ g, build (expandAll (impl o T v).evs) = some g ∧ Rules.agrees r g = true :=
+  SF.FoldProofs.fold_agrees_rec hM hD hfuel o reg T v r hp hdt hw hdv ⟨hfail, hord⟩ hspec hcost
+
+/- non-vacuity, agreement:
+`struct{A int; b string; C []string "n,omitempty"; D *struct{X bool} ",inline"}{5, "x", nil, &{true}}`
+↦ `{"a": 5, "x": true}` (renamed / unexported / omitempty on an empty field / inlined pointer to
+struct); the hypotheses hold and the conclusion is the theorem's -/
+example : goodT [] Examples.T5 = true ∧ wt Examples.T5 Examples.v5 = true ∧
+    Rules.foldR Examples.T5 Examples.v5 = .ok Examples.r5 ∧
+    (impl {} Examples.T5 Examples.v5).res = .ok ∧
+    ∃ g, build (expandAll (impl {} Examples.T5 Examples.v5).evs) = some g ∧ Rules.agrees Examples.r5 g = true :=
+  ⟨stage_good 5 _ _ Examples.stage5, Examples.wt5, Examples.spec5,
+   fold_agrees {} true _ _ _ (stage_good 5 _ _ Examples.stage5) (by decide +kernel) Examples.wt5
+     (by decide +kernel) rfl hintOK_nil Examples.spec5 (by decide +kernel)⟩
+
+/- non-vacuity, refusal: a channel inside a dynamic type (`[]interface{}{1, (chan int)(nil)}`) -/
+example :
+    let T : GoType := .slice .iface
+    let v : GoVal := .slice [.iface (.int .int) (.int 1), .iface (.chan (.int .int)) .nilOther]
+    goodT [] T = true ∧ wt T v = true ∧ dynSmall v = true ∧
+      Rules.foldR T v = .error .unsupported ∧ ∃ e', (impl {} T v).res = .err e' := by
+  intro T v
+  have h1 : goodT [] T = true := by decide +kernel
+  have h2 : wt T v = true := by decide +kernel
+  have h3 : dynSmall v = true := by decide +kernel
+  have h4 : Rules.foldR T v = .error .unsupported := rfl
+  exact ⟨h1, h2, h3, h4, fold_refuses {} true T v _ h1 (by decide +kernel) h2 h3 (by decide +kernel) rfl
+    hintOK_nil h4 (by decide)⟩
 
 end SF.Props.C12
